@@ -44,7 +44,7 @@ def run(tier, seed):
     chk.exhaustive = True
     chk.sample({"ceremony": "get", "flags": "0x15", "require_uv": False, "expected": "reject (BS without BE)"})
     B.close()
-    fw.env_invariance(chk, "auth")          # the same seeded cases under -O / -OO, warnings-as-errors, other TZ / locale, a private CA bundle
+    fw.env_invariance(chk, "auth", "reg")          # the same seeded cases under -O / -OO, warnings-as-errors, other TZ / locale, a private CA bundle
     return fw.finish(chk, ob, br, TRUSTED, ["authenticator data is laid out as the flag byte announces (AT -> attested data, ED -> extension map)"],
                      RULE, "coqc -Q . PW Properties/C10.v; thorough: coqchk -o")
 
